@@ -14,7 +14,7 @@ def main():
   seed = int(sys.argv[2]) if len(sys.argv) > 2 else None
   setup_impl_path()
   ctx = Ctx('C01', 'quick', seed)
-  rc, log = ctx.make(['theories/RTL/Footprint.vo'])        # the model the cases files import (built under the project lock)
+  rc, log = ctx.make(['theories/RTL/Footprint.vo', 'theories/RTL/RtlFixed.vo'], jobs=6)        # the model the cases files import (built under the project lock)
   if rc != 0:
     print('coq build failed:\n' + log[-1500:]); return 2
   cwd = os.getcwd()
@@ -45,6 +45,7 @@ def main():
   print(f'declared footprint covers    {out.get("blocks_footprint_covered")}')
   print(f'simulator == Coq run_block   {out.get("blocks_eval_agree")}   ({out["eval_samples"]} sampled states)')
   print(f'outside the language because {out["outside_reasons"]}')
+  if 'fixed_point_certificate' in out: print(f'fixed-point certificate      {out["fixed_point_certificate"]}')
   if 'bits' in out: print(f'footprint sizes (bits)       {out["bits"]}')
   print(f'time: python {t1 - t0:.1f}s, coq {t2 - t1:.1f}s')
   for key, what, path, found in ctx.violations:
